@@ -94,7 +94,8 @@ class _Gen:
         if feat['inspect'] and rng.random() < 0.3:
             step = ["inspect", rng.choice(("parent", "parent", "top")) + ":"
                     + rng.choice(("list", "cycles", "topo", "stats",
-                                  "exits"))]
+                                  "exits", "debrief", "list_safe", "dot",
+                                  "iterate"))]
             node["script"].insert(rng.randrange(len(node["script"]) + 1),
                                   step)
         if feat['slow_cleanup'] and rng.random() < 0.5:
@@ -295,7 +296,8 @@ def gen_knobs(rng, feat):
                                    -500)),
         "tie_shuffle": rng.random() < 0.85,
         "stall_den": stall,
-        "entry": rng.choice(("run", "co_run")),
+        "entry": rng.choice(("run", "co_run", "orchestrate", "run")),
+        "sync_shutdown": rng.random() < 0.3,
         "noise": rng.choice((0, 0, 0, 0.25, 0.125)),
         "sched_seed": rng.randrange(1 << 30),
     }
